@@ -190,6 +190,11 @@ pub const DEPTHS: [usize; 12] = [1, 2, 3, 49, 50, 51, 98, 99, 100, 101, 150, 300
 pub fn gen_adversarial(r: &mut Rng, thorough: bool, out: &mut Vec<String>) {
     let n = |q: usize, t: usize| if thorough { t } else { q };
     // ---- runtime level
+    // decode_varint: all three paths (the oracle feeds the same bytes through chunked buffers, i.e. the slow path)
+    for last in [0u8, 1, 2, 3, 4, 0x7f, 0x80, 0x81] { for pad in [0usize, 1, 2, 5] {
+        let mut v = vec![0xffu8; 9]; v.push(last); v.extend(std::iter::repeat(0x21).take(pad)); out.push(format!("pbvardec {}", hex(&v)));
+    } }
+    for _ in 0..n(300, 6000) { out.push(format!("pbvardec {}", hex(&gen_varint_bytes(r)))); }
     for d in DEPTHS { for bad in [false, true] { let b = group_ladder(9, d, bad); let mut body = b.clone(); let k = { let mut k = vec![]; put_key(9, 3, &mut k); k.len() }; body.drain(..k); out.push(format!("pbskip sgroup 9 {}", hex(&body))); } }
     for wt in WT_NAMES {
         for b in [vec![], vec![0u8], vec![0x80], vec![1, 2, 3], vec![5, 1, 2, 3, 4, 5, 6], vec![0xff; 12], vec![4, 1, 2, 3], vec![0xff, 0xff, 0xff, 0xff, 0x0f, 1], vec![0x0c], vec![0x0b, 0x0c], vec![0x0b, 0x14]] {
